@@ -251,7 +251,11 @@ func (e *Engine) Generate(prop, tier string, seed uint64, run int) *sim.Plan {
 					st.F = []string{"loss", "mid-advert", "mid-pack", "partial-fetch"}[r.Intn(4)]
 				}
 			}
-			if st.Op == "pull" && r.Chance(0.5) {
+			// The one-call Pull API returns at the first refused entity and abandons its merge
+			// goroutines, which then go on merging a few more entities AFTER Pull has returned
+			// (each stage of the channel pipeline holds one result). That tail runs outside the
+			// simulator's control, so the one-call API is only drawn where no refusal is expected.
+			if st.Op == "pull" && r.Chance(0.5) && !faults && prop != "C09" {
 				st.K = "pull-api" // use the one-call Pull API instead of fetch + MergeAll
 			}
 		case "restart":
